@@ -24,6 +24,7 @@ EXPLANATION = (
   " (STATE-alias / STATE-global) no function of the anchored modules mutates a module- or class-level container, rebinds module / class state or mutates a mutable default argument, so a result never depends on earlier calls;"
   " (INDEP) the first-child and last-child link updates are independent statements;"
   ' (PAIR-detach) every removal clears parent, sibling links and the document of the removed child; (REG-repoint) put_region re-points the elements that used the replaced region;'
+  " (FIN-validate) every property's validate(), evaluated on SpecialValues.none and SpecialValues.normal, accepts the special value exactly when it is that property's TTML value;"
 )
 RULE_TEXT = "one instance per element kind, link-field store, guard, mutator, store site, registry writer"
 UNDECIDED = ["arbitrary call histories as such (the rules are the per-operation preconditions, not the induction)",
@@ -261,6 +262,40 @@ def check_registry(ctx, mf):
   ctx.floor("REG-repoint", "functions writing the region registry", n, 2)
 
 
+def check_special_values(ctx):
+  """FIN-validate: the special values `none` / `normal` are values of exactly the properties whose TTML
+  initial value they are (lineHeight: normal; rubyReserve, textEmphasis, textOutline, textShadow: none).
+  Every property's validate() is evaluated on both; a validator that lets a special value of another
+  property through stores a value the rest of the code (style computation, writers) has no case for."""
+  from ..consteval import ConstEval, FuncEval, NotConst, Raised
+  from ..oracles import ttml_styles as oracle
+  ix = ctx.ix
+  m = ix.mod("ttconv.style_properties")
+  ctx.unit(m)
+  ce, fe = ConstEval(ix), FuncEval(ix)
+  sv = ix.cls("ttconv.style_properties:SpecialValues")
+  members = {n: ce.ev(m, ast.parse(f"SpecialValues.{n}", mode="eval").body) for n, _ in ix.enum_members(sv)}
+  sp = ix.cls("ttconv.style_properties:StyleProperties")
+  n = 0
+  for name, c in sorted(sp.nested.items()):
+    v = c.methods.get("validate")
+    if v is None or name not in oracle.STYLES:
+      continue
+    for sname, val in sorted(members.items()):
+      try:
+        got = fe.call(v, {v.params[-1]: val})
+      except (NotConst, Raised):
+        continue
+      if not isinstance(got, bool):
+        continue
+      n += 1
+      want = oracle.STYLES[name][1] == f"special:{sname}"
+      ctx.check(got == want, "FIN-validate", f"{v.qualname}|SpecialValues.{sname}", ctx.where(v.module, v.node), f"{'accepted' if got else 'rejected'}",
+                f"{name}.validate {'accepts' if got else 'rejects'} SpecialValues.{sname}, but `{sname}` {'is not' if got else 'is'} a value of tts:{name[0].lower() + name[1:]} "
+                f"(TTML initial value: {oracle.STYLES[name][1]})")
+  ctx.floor("FIN-validate", "validate() x special value evaluations", n, 40)
+
+
 def run(ctx):
   ix = ctx.ix
   mf = ModelFacts(ix)
@@ -308,4 +343,5 @@ def run(ctx):
   for q in ("ttconv.model:ContentElement.remove_child", "ttconv.model:ContentElement.push_child", "ttconv.model:ContentElement.set_doc"):
     ni += shape.check_independent_updates(ctx, ctx.ix.func(q))
   ctx.note(f"INDEP: {ni} if/elif chains in the link-update methods")
+  check_special_values(ctx)
   common.check_history_independence(ctx, ["ttconv.model", "ttconv.style_properties"])
